@@ -322,4 +322,16 @@ def toWireError : GoErr → WErr
         | none => 0
       message := msg, data := none }
 
+/-- A linear chain `fmt.Errorf("m₁: %w", fmt.Errorf("m₂: %w", … wireErr))`. -/
+def chain : List Bytes → WErr → GoErr
+  | [], w => .wire w
+  | m :: ms, w => .other m [chain ms w]
+
+
+/-- The six member names `DecodeMessage` looks at. -/
+def wireNames : List Bytes :=
+  [wireDecode_VersionTag_name, wireDecode_ID_name, wireDecode_Method_name, wireDecode_Params_name,
+   wireDecode_Result_name, wireDecode_Error_name]
+
+
 end Wire
